@@ -4,6 +4,7 @@ import (
 	"context"
 	"fmt"
 	"math/rand"
+	"sync"
 	"sync/atomic"
 	"testing"
 	"testing/synctest"
@@ -49,9 +50,14 @@ var c13PP = []pp{
 }
 
 // runC13SlowWrites: dead peer behind a slow transport, on the real clock.
-func runC13SlowWrites(c *mon.Case) {
-	rng := c.Rng
-	k := []pp{{100 * time.Millisecond, 50 * time.Millisecond}, {250 * time.Millisecond, 250 * time.Millisecond}}[rng.Intn(2)]
+func runC13SlowWrites(c *mon.Case) { runC13SlowWritesAttempt(c, 0) }
+
+func runC13SlowWritesAttempt(c *mon.Case, attempt int) {
+	rng := rand.New(rand.NewSource(c.Seed))
+	// The pong timeout is well above the cost of one write (0.8 ping
+	// intervals) plus scheduling noise: the peer's answer must be able to
+	// arrive in time, or the "live peer" phase would be outside the property.
+	k := []pp{{100 * time.Millisecond, time.Second}, {250 * time.Millisecond, time.Second}}[rng.Intn(2)]
 	n := []uint8{1, 3, 20}[rng.Intn(3)]
 	conf := eng.GBNConf{N: n, PingC: k.ping, PongC: k.pong, Static: true, Resend: time.Second}
 	ctx, cancel := context.WithCancel(context.Background())
@@ -82,6 +88,15 @@ func runC13SlowWrites(c *mon.Case) {
 	if rng.Intn(2) == 0 {
 		for i := 0; i < 4; i++ {
 			if err := p.C.Send(eng.MsgBytes('a', sent, 20)); err != nil {
+				if attempt < 2 {
+					// real clock: repeat with the same inputs, report
+					// only what shows three times in a row
+					cancel()
+					go p.CloseAll()
+					c.Shard.Count("slow_transport_repeats", 1)
+					runC13SlowWritesAttempt(c, attempt+1)
+					return
+				}
 				c.Shard.Violate("closed-while-healthy|slow-transport",
 					fmt.Sprintf("Send failed (%v) on a live peer behind a slow transport (every write %v, ping %v, pong %v, N=%d)", err, k.ping*4/5, k.ping, k.pong, n),
 					map[string]any{"kind": "S", "conf": conf.String()})
@@ -386,12 +401,32 @@ func runC13Healthy(c *mon.Case) {
 		defer cancel()
 		p := eng.NewPair(conf)
 		p.C2S.KeepLog, p.S2C.KeepLog = false, false
-		cnt := func(idx int, pk sim.Pkt) {
+		// a ring of the last wire events is the witness of a violation
+		var ringMu sync.Mutex
+		ring := make([]string, 0, 160)
+		note := func(dir, what string, pk sim.Pkt) {
+			ringMu.Lock()
+			if len(ring) == cap(ring) {
+				copy(ring, ring[1:])
+				ring = ring[:len(ring)-1]
+			}
+			ring = append(ring, fmt.Sprintf("%v %s %s %s", time.Since(p.T0), dir, what, pk.String()))
+			ringMu.Unlock()
+		}
+		p.C2S.OnSend = func(idx int, pk sim.Pkt) {
 			if pk.Type == sim.TData && pk.Ping {
 				pings.Add(1)
 			}
+			note("c2s", "send", pk)
 		}
-		p.C2S.OnSend, p.S2C.OnSend = cnt, cnt
+		p.S2C.OnSend = func(idx int, pk sim.Pkt) {
+			if pk.Type == sim.TData && pk.Ping {
+				pings.Add(1)
+			}
+			note("s2c", "send", pk)
+		}
+		p.C2S.OnDeliver = func(idx int, pk sim.Pkt) { note("c2s", "deliver", pk) }
+		p.S2C.OnDeliver = func(idx int, pk sim.Pkt) { note("s2c", "deliver", pk) }
 		if ackLoss {
 			for _, l := range []*sim.Link{p.C2S, p.S2C} {
 				lastDropped := false
@@ -434,6 +469,9 @@ func runC13Healthy(c *mon.Case) {
 		case <-time.After(idle):
 		}
 		if who != "" {
+			ringMu.Lock()
+			rep["last_wire_events"] = append([]string{}, ring...)
+			ringMu.Unlock()
 			c.Shard.Violate("healthy-idle-closed",
 				fmt.Sprintf("%s closed itself after %v of idleness although the peer answers with round-trip time %v < pong timeout [%s]", who, at, rtt, conf.String()), rep)
 		}
